@@ -9,6 +9,7 @@ import (
 	"go/token"
 	"os"
 	"path/filepath"
+	"reflect"
 	"sort"
 	"strconv"
 	"strings"
@@ -44,6 +45,10 @@ type decFacts struct {
 	runResetsAttempt     bool   // (*reader).run: `attempt = 0` and `offset = start` after a successful initialize
 	runErrcountInc       bool   // … `errcount++` is the last statement of readLoop's body
 	loopBranches         string // per error class of readLoop's switch: what the clause does (canonical words)
+	v1Loop               string // (*messageSetReader).readMessageV1: its body, error plumbing and debug output removed
+	msrMarkRead          string // … markRead
+	msrUnwind            string // … unwindStack
+	msrReadMessage       string // … readMessage
 }
 
 // decExtractor carries the file set that the renderer needs and the names declared in the function being read.
@@ -422,6 +427,20 @@ func extractDecoder(repo, root string) error {
 	d.header(readHeader, &facts)
 	d.skipLoop(msrReadMessage, &facts)
 	d.messageV2(readMessageV2, &facts)
+	facts.v1Loop = "?"
+	if readMessageV1 := decFunc(mf, "messageSetReader", "readMessageV1"); readMessageV1 != nil {
+		nz.normalise(readMessageV1)
+		facts.v1Loop = d.skeleton(readMessageV1)
+	}
+	facts.msrMarkRead, facts.msrUnwind = "?", "?"
+	if fd := decFunc(mf, "messageSetReader", "markRead"); fd != nil {
+		nz.normalise(fd)
+		facts.msrMarkRead = d.skeleton(fd)
+	}
+	if fd := decFunc(mf, "messageSetReader", "unwindStack"); fd != nil {
+		nz.normalise(fd)
+		facts.msrUnwind = d.skeleton(fd)
+	}
 
 	// ---- batch.go
 	bf, err := parse("batch.go")
@@ -499,6 +518,9 @@ func extractDecoder(repo, root string) error {
 			facts.emptyWhenHwmEqOffset = true
 		}
 	})
+
+	// last: the skeleton rewrites the function it renders
+	facts.msrReadMessage = d.skeleton(msrReadMessage)
 
 	return os.WriteFile(filepath.Join(root, "lean/KafkaVerif/Gen/DecoderFacts.lean"), []byte(facts.lean()), 0o644)
 }
@@ -993,6 +1015,51 @@ func (d *decExtractor) readerLoop(f *ast.File, run, initialize *ast.FuncDecl, fa
 	}
 }
 
+// skeleton renders the body of a function with what the statement-level model does not follow removed:
+// `if <recv>.debug { … }` statements, the bodies of function literals, and the error plumbing
+// (`if err = f(); err != nil { return }` becomes `must(f())`).  Everything else — loop conditions, the order of the
+// calls, assignments, continue / return — is kept, alpha-normalised.
+func (d *decExtractor) skeleton(fd *ast.FuncDecl) string {
+	d.enter(fd)
+	var strip func(l []ast.Stmt) []ast.Stmt
+	strip = func(l []ast.Stmt) []ast.Stmt {
+		var out []ast.Stmt
+		for _, s := range l {
+			if is, ok := s.(*ast.IfStmt); ok && is.Else == nil {
+				if is.Init == nil && d.render(is.Cond) == "$r.debug" {
+					continue
+				}
+				// if err = f(); err != nil { return }
+				if as, ok := is.Init.(*ast.AssignStmt); ok && len(is.Body.List) == 1 && len(as.Rhs) == 1 {
+					if ret, ok := is.Body.List[0].(*ast.ReturnStmt); ok && len(ret.Results) == 0 {
+						if cond, ok := is.Cond.(*ast.BinaryExpr); ok && cond.Op == token.NEQ && decName(cond.Y) == "nil" &&
+							decName(cond.X) != "" && decName(as.Lhs[len(as.Lhs)-1]) == decName(cond.X) {
+							call := &ast.CallExpr{Fun: ast.NewIdent("must"), Args: []ast.Expr{as.Rhs[0]}}
+							if len(as.Lhs) == 1 {
+								out = append(out, &ast.ExprStmt{X: call})
+							} else {
+								out = append(out, &ast.AssignStmt{Lhs: as.Lhs[:len(as.Lhs)-1], Tok: token.ASSIGN, Rhs: []ast.Expr{call}})
+							}
+							continue
+						}
+					}
+				}
+			}
+			out = append(out, s)
+		}
+		return out
+	}
+	decRewriteLists(fd.Body, strip)
+	ast.Inspect(fd.Body, func(n ast.Node) bool {
+		if fl, ok := n.(*ast.FuncLit); ok {
+			fl.Body = &ast.BlockStmt{}
+		}
+		return true
+	})
+	decClearPos(reflect.ValueOf(fd.Body))
+	return d.render(fd.Body)
+}
+
 // decParamName is the name of the i-th parameter of a function ("" if there is none).
 func decParamName(fd *ast.FuncDecl, i int) string {
 	k := 0
@@ -1050,7 +1117,8 @@ func (f *decFacts) lean() string {
 		"jumpGuard : String", "skipBelow : String", "nextOffsetPlus : Int", "readerNextOffsetPlus : Int",
 		"emptyWhenHwmEqOffset : Bool", "closeStoresOffset : Bool", "oorSeeksConn : Bool",
 		"firstOffsetConst : Int", "lastOffsetConst : Int", "initResolve : String", "initSeeksResolved : Bool",
-		"runResetsAttempt : Bool", "runErrcountInc : Bool", "loopBranches : String",
+		"runResetsAttempt : Bool", "runErrcountInc : Bool", "loopBranches : String", "v1Loop : String",
+		"msrMarkRead : String", "msrUnwind : String", "msrReadMessage : String",
 	} {
 		b.WriteString("  " + fld + "\n")
 	}
@@ -1081,6 +1149,10 @@ func (f *decFacts) lean() string {
 		"runResetsAttempt := " + strconv.FormatBool(f.runResetsAttempt),
 		"runErrcountInc := " + strconv.FormatBool(f.runErrcountInc),
 		"loopBranches := " + decLeanString(f.loopBranches),
+		"v1Loop := " + decLeanString(f.v1Loop),
+		"msrMarkRead := " + decLeanString(f.msrMarkRead),
+		"msrUnwind := " + decLeanString(f.msrUnwind),
+		"msrReadMessage := " + decLeanString(f.msrReadMessage),
 	}
 	b.WriteString("  { " + strings.Join(vals, ",\n    ") + " }\n\n")
 	b.WriteString("end KV.Gen\n")
